@@ -9,6 +9,7 @@ package main
 // C09 (marks), C08 (reload differential through probes), C11 (sender header).
 
 import (
+	"time"
 	"encoding/json"
 	"fmt"
 	"sort"
@@ -652,6 +653,12 @@ func vfMsgProbes(t *vfTW, ref *vfMsgRef, pre, st *vfTopicSnap, op vfMsgOp, judge
 					gotIDs = append(gotIDs, d.SeqId)
 					if d.Topic != t.grp {
 						bad("C04:history-wrong-topic", fmt.Sprintf("{get data} by %s returned a message addressed %s", u, d.Topic))
+					}
+					// the timestamp it was published with (what the store recorded at the time)
+					for _, row := range t.w.db.Messages(t.grp) {
+						if row.SeqId == d.SeqId && !row.CreatedAt.Truncate(time.Millisecond).Equal(d.Timestamp.Truncate(time.Millisecond)) {
+							bad("C04:history-timestamp", fmt.Sprintf("{get data} by %s returned message %d with ts %s, published at %s", u, d.SeqId, d.Timestamp.Format(time.RFC3339Nano), row.CreatedAt.Format(time.RFC3339Nano)))
+						}
 					}
 				}
 			}
